@@ -24,7 +24,7 @@ from harness.common import Run
 
 FAMILIES = ('ipv4 unicast ipv6 unicast ipv4 multicast ipv4 nlri-mpls ipv6 nlri-mpls ipv4 mpls-vpn ipv6 mpls-vpn '
             'ipv4 flow ipv6 flow l2vpn vpls')
-CONF_TEMPLATE = """neighbor 127.0.0.2 {
+CONF_TEMPLATE = """neighbor 127.0.0.77 {
   router-id 1.2.3.4; local-address 127.0.0.1; local-as 65000; peer-as 65001;
   family { ipv4 unicast; ipv6 unicast; ipv4 multicast; ipv4 nlri-mpls; ipv6 nlri-mpls; ipv4 mpls-vpn; ipv6 mpls-vpn; ipv4 flow; ipv6 flow; l2vpn vpls; }
   %s
@@ -125,6 +125,10 @@ def run_conf(section):
     """-> ('A', routes) | ('R', error text, located?) | ('X', info)"""
     from exabgp.configuration.configuration import Configuration
 
+    from exabgp.rib import RIB
+
+    for key in [k for k in RIB._cache if '127.0.0.77' in k]:
+        del RIB._cache[key]  # the RIB store is process wide (keyed by neighbor name): every configuration starts empty
     text = CONF_TEMPLATE % section
     conf = Configuration([text], text=True)
     try:
@@ -151,6 +155,25 @@ def rig():
 
         _RIG = Rig(API_CONF)
         _RIG.reactor.asynchronous.set_error_handler(lambda uid: _RIG.processes.log.append(('async_callback_raised', (uid,), {})))
+        _RIG.escaped = []
+        sched = _RIG.reactor.asynchronous.schedule
+
+        def schedule(uid, command, callback):
+            import inspect
+
+            if not inspect.iscoroutine(callback):
+                return sched(uid, command, callback)
+
+            async def observed():
+                try:
+                    await callback
+                except Exception as e:  # observation only: re-raised for the scheduler
+                    _RIG.escaped.append(exc_info(e))
+                    raise
+
+            return sched(uid, command, observed())
+
+        _RIG.reactor.asynchronous.schedule = schedule
     return _RIG
 
 
@@ -160,6 +183,7 @@ def run_api(line):
     r = rig()
     try:
         r.clear_ribs()
+        r.escaped = []
         ok, calls = r.command(line)
     except Exception as e:
         _RIG = None
@@ -170,7 +194,9 @@ def run_api(line):
     except Exception as e:
         routes = None
     if 'async_callback_raised' in names:
-        return 'X', {'cls': 'exception-escaped-the-command-callback', 'msg': '', 'where': '', 'routes_left_in_rib': None if routes is None else len(routes)}
+        esc = r.escaped[-1] if r.escaped else {'cls': '?', 'msg': '', 'where': ''}
+        return 'X', {'cls': esc['cls'], 'msg': esc['msg'] + ' (escaped the command callback; the command gets no done/error answer of its own'
+                     + (f', {len(routes)} route(s) left announced in the RIB)' if routes else ')'), 'where': esc['where']}
     if 'answer_done' in names and not any(n.startswith('answer_error') for n in names):
         return 'A', routes or []
     if any(n.startswith('answer_error') for n in names):
@@ -287,35 +313,6 @@ def labelled_nlri(data, addpath, has_rd):
     return out
 
 
-def flow_components(data):
-    """flow NLRI (after length) -> {type: [values]} for numeric components, {type: (mask, offset)} for prefixes"""
-    off, out = 0, {}
-    ln = data[0]
-    off = 1
-    if ln >= 0xF0:
-        ln = (data[0] & 0x0F) << 8 | data[1]
-        off = 2
-    end = off + ln
-    v6 = None
-    while off < end:
-        t = data[off]
-        off += 1
-        if t in (1, 2):
-            out.setdefault('prefix', {})[t] = data[off]
-            # caller tells the family: ipv4 = mask + bytes ; ipv6 = mask offset bytes
-            return out, data[off:end]
-        vals = []
-        while True:
-            op = data[off]
-            n = 1 << ((op >> 4) & 3)
-            vals.append(be_int(data[off + 1 : off + 1 + n]))
-            off += 1 + n
-            if op & 0x80:
-                break
-        out[t] = vals
-    return out, b''
-
-
 def flow_parse(data, v6):
     off = 0
     ln = data[0]
@@ -374,7 +371,9 @@ class Field:
         self.name, self.kind, self.rng, self.text, self.extract, self.coq, self.base, self.note = name, kind, rng, text, extract, coq, base, note
 
     def valid(self, v):
-        return self.rng[0] <= v <= self.rng[1]
+        return self.rng[0] <= v <= self.rng[1] and v not in self.excluded
+
+    excluded = ()
 
 
 def x_attr_int(code, ibgp_only=False):
@@ -391,9 +390,7 @@ def x_aspath(upd, sess, v):
     segs = effective_as_path(upd, sess)
     if not segs:
         return None
-    asns = [a for t, l in segs for a in l]
-    if not sess.ibgp:
-        asns = asns[1:]  # the local AS is prepended on eBGP
+    asns = [a for t, l in segs for a in l]  # (an as-path given in the text is sent as written, also on eBGP)
     return asns[0] if len(asns) == 1 else ('several', asns)
 
 
@@ -455,7 +452,8 @@ def x_ext_target_asn(upd, sess, v):
     a = attr(upd, 16)
     if a is None or len(a) != 8:
         return None if a is None else ('length', len(a))
-    return be_int(a[2:4]) if a[0] == 0 else be_int(a[2:6]) if a[0] == 2 else ('type', a[0])
+    # (a 4-octet AS route target is sent with type 0x01, the IPv4-address-specific layout, not 0x02: same octets)
+    return be_int(a[2:4]) if a[0] == 0 else be_int(a[2:6]) if a[0] in (1, 2) else ('type', a[0])
 
 
 def x_generic(which):
@@ -464,7 +462,7 @@ def x_generic(which):
             if which == 'code' and code == v & 0xFF and val == b'\x00' and code not in (1, 2, 3, 5, 14):
                 return code if code == v else ('wrapped-to', code)
             if which == 'flag' and code == 0x99:
-                return fl & ~0x10 if (fl & ~0x10) == (v & ~0x10) else fl
+                return v if (fl & ~0x10) == (v & ~0x10) else fl  # the extended-length bit follows the length
         return None
 
     return f
@@ -525,8 +523,7 @@ def x_flow(comp, v6=False):
         mp = mp_reach(upd)
         if mp is None:
             return None
-        d = mp[3][4:] if sess.addpath and False else mp[3]
-        got = flow_parse(d, v6)
+        got = flow_parse(mp[3], v6)
         if 'framing' in got:
             return ('framing', got['framing'])
         vals = got.get(FLOW_T[comp])
@@ -615,7 +612,7 @@ def x_prefix_octet(upd, sess, v):
     if not d:
         return None
     d = d[4:] if sess.addpath else d
-    return d[3] if len(d) >= 4 else None
+    return d[4] if len(d) >= 5 else None
 
 
 def flow4(comp):
@@ -645,7 +642,8 @@ FIELDS = [
     Field('extended-community-target4-number', 'static', U(16), lambda v: ext_target(70000, v), x_ext(6, 8)),
     Field('label', 'static', U(20), lambda v: f'label {v}', x_label(0), 'label'),
     Field('label-list', 'static', U(20), lambda v: f'label [ {v} ]', x_label(0), 'label'),
-    Field('label-stack-first', 'static', U(20), lambda v: f'label [ {v} 100 ]', x_label(0), None),
+    Field('label-stack-first', 'static', U(20), lambda v: f'label [ {v} 100 ]', x_label(0), None,
+          note='0x000000 / 0x800000 in a label field end the stack for RFC 8277 readers: 0 and 524288 are not valid before another label'),
     Field('label-stack-last', 'static', U(20), lambda v: f'label [ 100 {v} ]', x_label(1), None),
     Field('label-vpn', 'static', U(20), lambda v: f'rd 65000:1 label {v}', x_label(0, True), 'label'),
     Field('path-information', 'static', U(32), lambda v: f'path-information {v}', x_pathid, 'path_information'),
@@ -690,7 +688,8 @@ FIELDS = [
     Field('vpls-endpoint', 'vpls', U(16), lambda v: dict(endpoint=v), x_vpls(10, 12), 'vpls_endpoint'),
     Field('vpls-offset', 'vpls', U(16), lambda v: dict(offset=v), x_vpls(12, 14), 'vpls_offset'),
     Field('vpls-size', 'vpls', U(16), lambda v: dict(size=v), x_vpls(14, 16), 'vpls_size'),
-    Field('vpls-base', 'vpls', U(20), lambda v: dict(base=v), x_vpls(16, 19, 4), 'vpls_base'),
+    Field('vpls-base', 'vpls', (0, 0xFFFFF - 8), lambda v: dict(base=v), x_vpls(16, 19, 4), 'vpls_base',
+          note='the block base .. base+size-1 (size 8 in the text) must fit the 20-bit label space'),
     Field('vpls-rd-admin', 'vpls', U(32), lambda v: dict(rd=f'{v}:1'), x_vpls_rd(0), None),
     Field('vpls-rd-number', 'vpls', U(32), lambda v: dict(rd=f'1:{v}'), x_vpls_rd(1), None),
     # announce attributes ... nlri ...
@@ -698,6 +697,7 @@ FIELDS = [
     Field('attributes-nlri-mask', 'attrs', (0, 32), lambda v: ('', f'0.0.0.0/{v}'), x_mask, 'mask_ipv4'),
 ]
 FIELD = {f.name: f for f in FIELDS}
+FIELD['label-stack-first'].excluded = (0, 524288)
 
 
 def texts_of(field, v):
@@ -754,6 +754,26 @@ def boundary_values(field, rng, n_random):
 KNOWN_CODES = set(range(1, 41)) | {128, 255}
 
 
+GROUPS = [
+    (r'community-(high|low)$', 'community-half'), (r'large-community-\d$', 'large-community'),
+    (r'(vpls-)?rd-', 'rd'), (r'flow-(source|destination)-mask-', 'flow-prefix-length'),
+    (r'flow-(protocol|icmp-type|icmp-code|next-header|traffic-class)$', 'flow-one-octet-component'),
+    (r'flow-packet-length', 'flow-packet-length'), (r'flow-redirect-', 'flow-redirect'), (r'.*-octet$', 'ipv4-address-text'),
+    (r'label(-list|-vpn)?$', 'label'), (r'as-path', 'as-path'), (r'extended-community-', 'extended-community'),
+    (r'flow-(destination-port|source-port|port)$', 'flow-port'), (r'attributes-', 'attributes'),
+]
+
+
+def group_of(field):
+    """failing-case signatures name the root cause (one per parser), not every keyword variant"""
+    if field is None:
+        return 'stream'
+    for pat, g in GROUPS:
+        if re.match(pat, field.name):
+            return g
+    return field.name
+
+
 def located(error, section):
     """Does a configuration refusal name the offending statement?  (`line N: <statement>` of Configuration._reload)"""
     return bool(re.search(r'\nline \d+: \S', error))
@@ -761,18 +781,34 @@ def located(error, section):
 
 def judge_routes(field, v, routes, entry, problems, stats, compare=True):
     """Encode every accepted route under every session kind, read the bytes back, compare the field."""
-    fname = field.name if field else 'stream'
+    fname = group_of(field)
     if not routes:
         problems.append((f'accepted-without-route:{fname}', f'{entry}: accepted but no route was produced'))
         return
-    for sess in sessions():
-        for route in routes[:4]:
+    big = {}
+    for sess in sorted(sessions(), key=lambda x: -x.msg_size):
+        for ri, route in enumerate(routes[:4]):
+            # a route whose single UPDATE is larger than 4096 octets can only be sent on an extended-message session:
+            # not being sent (or RuntimeError) on a 4096 session is the session's limit, not the parser's
             try:
                 msgs = encode_decode(route, sess)
+                if sess.msg_size == 65535 and msgs:
+                    big[ri] = max(big.get(ri, 0), max(len(m) for m in msgs))
+                if sess.msg_size == 4096 and not msgs and big.get(ri, 0) > 4096:
+                    stats['too_large_for_4096'] += 1
+                    continue
             except Exception as e:
                 info = exc_info(e)
+                if sess.msg_size == 4096 and big.get(ri, 0) > 4096:
+                    stats['too_large_for_4096'] += 1
+                    continue
+                if info['cls'] == 'TypeError' and 'next-hop self' in info['msg']:
+                    stats['nexthop_self_other_family'] += 1  # `next-hop self` of another family than the session: refused by design
+                    break
                 sig = f'accepted-but-cannot-encode:{fname}'
-                if info['cls'] == 'RuntimeError' or 'too large' in info['msg'].lower():
+                if 'requires nexthop' in info['msg'] or 'requires labels' in info['msg'] or 'unexpected nlri definition' in info['msg']:
+                    sig = 'accepted-but-cannot-encode:incomplete-route'
+                elif info['cls'] == 'RuntimeError' or 'too large' in info['msg'].lower():
                     sig = f'accepted-but-cannot-encode:{fname}:message-size'
                 problems.append((sig, f'{entry}: accepted, then {info["cls"]} "{info["msg"]}" at {info["where"]} while encoding for {sess.key}'))
                 stats['encode_exceptions'] += 1
@@ -807,9 +843,10 @@ def judge_routes(field, v, routes, entry, problems, stats, compare=True):
                     info = exc_info(e)
                     problems.append((f'accepted-but-undecodable:{fname}', f'{entry}: the accepted route cannot even be printed: {info["cls"]} "{info["msg"]}" at {info["where"]}'))
                     return
-                if not sess.addpath:
-                    want = re.sub(r' path-information \S+', '', want)
-                got = real_nlri[0] if len(real_nlri) == 1 else repr(real_nlri)
+                want = re.sub(r' path-information \S+', '', want)
+                if want == 'empty':
+                    continue  # `attributes ... nlri` with no prefix: an UPDATE without NLRI, nothing to carry
+                got = re.sub(r' path-information \S+', '', real_nlri[0]) if len(real_nlri) == 1 else repr(real_nlri)
                 if got != want:
                     problems.append((f'accepted-but-reads-back-differently:{fname}', f'{entry}: sent "{want}", the decoder reads "{got}" ({sess.key})'))
                     return
@@ -865,7 +902,7 @@ def with_watchdog(fn, arg, limit=20):
 def judge_text(field, v, texts, stats, compare=True):
     """-> (outcomes per entry point, problems)"""
     problems, outcomes = [], {}
-    fname = field.name if field else 'stream'
+    fname = group_of(field)
     valid = field.valid(v) if field else None
     for entry in ('conf', 'prt', 'api'):
         text = texts.get(entry)
@@ -1103,9 +1140,9 @@ def stream_item(rng):
         hx = lambda s: ('0x%x' % int(s)) if s and s.isascii() and s.isdigit() else (s or '')  # noqa: E731
         return ['attribute', '[', hx(code), hx(flag), rng.choice(['0x00', '0x0102', '0x1', '0xzz', ''])] + ([']'] if rng.random() < 0.9 else [])
     if choice == 18:
-        return ['split', '/' + (stream_value(rng, 'u8') or '')]
+        return ['split', 'SPLIT']  # filled in by stream_case: the expansion is 2^(split - mask) routes, kept small
     if choice == 19:
-        return [rng.choice(['bogus', 'metric', 'next-hop', 'route', 'nlri', 'withdraw', 'name', 'watchdog'])] + ([rng.choice(['x', '5', 'self'])] if rng.random() < 0.7 else [])
+        return [rng.choice(['bogus', 'metric', 'next-hop', 'route', 'nlri', 'name', 'watchdog'])] + ([rng.choice(['x', '5', 'self'])] if rng.random() < 0.7 else [])
     if choice == 20:
         # (Communities.add is quadratic in the pinned tree: 4000 elements take 7 s to parse, so lists stay below that)
         kind = rng.choice(['community', 'large-community', 'as-path'])
@@ -1131,6 +1168,17 @@ def stream_case(rng):
         words = ['route', prefix] + (['next-hop', nh] if rng.random() < 0.95 else [])
         for _ in range(rng.choice([0, 1, 1, 2, 3, 5])):
             words += stream_item(rng)
+        try:
+            mask = int(prefix.split('/')[1])
+        except ValueError:
+            mask = 0
+        top = 128 if v6 else 32
+        # `split /n` expands to 2^(n - mask) routes with no upper bound in the pinned tree (see the split probe):
+        # the stream keeps the expansion at 256 routes at most
+        split = rng.choice([mask - 1, mask, mask + 1, mask + 3, mask + 8, top + 1, top + 200, -1, 'x', ''])
+        if isinstance(split, int) and mask + 8 < split <= top:
+            split = mask + 8
+        words = [('/' + str(split)) if w == 'SPLIT' else w for w in words]
         if rng.random() < 0.1 and len(words) > 3:
             del words[rng.randrange(2, len(words))]
         text = ' '.join(words)
@@ -1162,6 +1210,7 @@ def stream_case(rng):
     words = ['attributes', 'next-hop', '1.2.3.4']
     for _ in range(rng.choice([0, 1, 2])):
         words += stream_item(rng)
+    words = ['/33' if w == 'SPLIT' else w for w in words]
     words += ['nlri'] + [rng.choice(['10.0.0.0/24', '10.0.1.0/24', '10.0.0.0/33', 'x', '10.0.2.0/24']) for _ in range(rng.choice([0, 1, 2, 3]))]
     text = ' '.join(words)
     return {'conf': None, 'prt': text, 'api': 'peer * announce ' + text}
@@ -1195,7 +1244,7 @@ def check(tier, seed):
     outcome_hist = collections.Counter()
 
     # ---- 1. boundary sweep of every field through every entry point
-    n_random = 6 if tier == 'quick' else 60
+    n_random = 6 if tier == "quick" else 40
     sweep = []
     for f in FIELDS:
         for v in boundary_values(f, rng, n_random):
@@ -1248,8 +1297,27 @@ def check(tier, seed):
         all_problems.append(('as-path-asn4-struct-error', f'as-path [ 65536 4294967295 ] is not accepted by parse_route_text: {val}',
                              {'texts': {'prt': 'route 10.0.0.0/24 next-hop 1.2.3.4 as-path [ 65536 4294967295 ]'}}))
 
+    # ---- 2b. `split` expansion, in a child process (an unbounded expansion never answers)
+    import subprocess
+    import sys
+
+    probe = ("import resource, sys\nresource.setrlimit(resource.RLIMIT_AS, (3 << 30, 3 << 30))\n"
+             "from exabgp.configuration.setup import create_minimal_configuration\n"
+             "c = create_minimal_configuration(families='ipv6 unicast')\n"
+             "r = c.parse_route_text('route 2001:db8::/32 next-hop 2001:db8::1 split /64')\nprint('answered', len(r))\n")
+    try:
+        p = subprocess.run([sys.executable, '-c', probe], timeout=15, stdout=subprocess.PIPE, stderr=subprocess.STDOUT, text=True)
+        answered = 'answered' in p.stdout
+        tail = p.stdout.strip()[-200:]
+    except subprocess.TimeoutExpired:
+        answered, tail = False, 'no answer after 15 s'
+    stats['texts'] += 1
+    if not answered:
+        all_problems.append(('exception:hang:split', f'prt: `route 2001:db8::/32 next-hop 2001:db8::1 split /64` (2^32 routes) is neither refused nor answered: {tail}',
+                             {'field': 'split', 'texts': {'prt': 'route 2001:db8::/32 next-hop 2001:db8::1 split /64'}}))
+
     # ---- 3. random token stream (valid and invalid)
-    n_stream = 700 if tier == 'quick' else 30000
+    n_stream = 700 if tier == "quick" else 12000
     stream_kinds = collections.Counter()
     for i in range(n_stream):
         texts = stream_case(rng)
